@@ -7,7 +7,8 @@ From Coq Require Import List NArith Permutation.
 From Coq Require Import ZArith.
 From XotV Require Import Model.Base Model.Zipper Model.Access Model.Store Model.Manip Spec.DocOrder Spec.Shape
                          Proofs.ZipperProofs Proofs.AccessProofs Proofs.StoreProofs Proofs.InvProofs Proofs.InvSteps
-                         Proofs.InvOps Proofs.InvHist.
+                         Proofs.InvOps Proofs.InvHist Proofs.InvApi.
+From XotV Require Import Model.Unpretty Model.Interning Model.NsTools Model.Hist.
 Import ListNotations.
 Open Scope N_scope.
 
@@ -116,6 +117,31 @@ Theorem C04_new_handle_fresh :
   forall st v st' i, Good st -> new_node st v = (st', i) -> ~ In i (ids (store st)) /\ live st' (i, stamp_of st' i).
 Proof. exact new_handle_fresh. Qed.
 Print Assumptions C04_new_handle_fresh.
+
+(* the same for the calls built on top of the node-level API: remove_insignificant_whitespace, create_missing_prefixes,
+   deduplicate_namespaces, clone_with_prefixes (whatever order the hash map of inherited prefixes is walked in) — every
+   history the harness can draw (Model/Hist.v tstep) keeps the store good *)
+Theorem C04_every_api_history_keeps_store_good :
+  forall nm ops t st, Good st -> Good (snd (tfinal nm (t, st) ops)).
+Proof. intros nm ops t st G. exact (ext_good _ _ (Ext_tfinal nm ops t st G)). Qed.
+Print Assumptions C04_every_api_history_keeps_store_good.
+
+Theorem C04_api_removed_for_ever :
+  forall nm ops1 ops2 t st h, Good st ->
+    let b := tfinal nm (t, st) ops1 in let c := tfinal nm b ops2 in
+    live st h -> ~ live (snd b) h -> ~ live (snd c) h.
+Proof.
+  intros nm ops1 ops2 t st h G b c. pose proof (Ext_tfinal nm ops1 t st G) as X1. fold b in X1.
+  destruct b as [tb sb]. cbn [snd] in *. apply (removed_for_ever st sb (snd c) h X1). subst c. apply Ext_tfinal. apply X1.
+Qed.
+Print Assumptions C04_api_removed_for_ever.
+
+(* xml_id_node (the one accessor that answers from an index built earlier, at parse time) never hands out a removed node:
+   whatever the index holds, an answer is a live handle *)
+Theorem C04_xml_id_node_answers_are_live :
+  forall st index id h, xml_id_node st index id = Some h -> live st h.
+Proof. exact xml_id_node_live. Qed.
+Print Assumptions C04_xml_id_node_answers_are_live.
 
 (* non-vacuity: a history with removals, slot reuse, wrapping and attribute calls reaches a non-trivial store (and the
    theorem above says it is good); and the shape predicate does reject a wrong forest (text before an attribute) *)
